@@ -147,4 +147,26 @@ example : reason (some ⟨none, some 1, none⟩) 2 0 2 5 = .failureToleranceExce
     reason (some ⟨none, some 1, none⟩) 3 1 4 5 = .failureToleranceExceeded ∧
     reason (some ⟨some 1, none, none⟩) 0 1 1 3 = .minSuccessfulReached := by decide
 
+/-! ## `min_successful=0` -/
+
+/-- `min_successful=0` is read as "not set" by the executor (`min_successful or len(executables)`,
+executor.py:168): the stop decision is the one of the same configuration without a minimum, in every state. -/
+theorem C09_min_zero_same_decision (tc : Option Nat) (tp : Option (Nat × Nat)) (s f n : Nat) :
+    shouldComplete ⟨some 0, tc, tp⟩ s f n = shouldComplete ⟨none, tc, tp⟩ s f n := by
+  rw [Bool.eq_iff_iff, C09_decide_iff_policy, C09_decide_iff_policy]
+  simp [minEff, toleranceExceeded]
+
+/-- … and at every state where the executor has decided with such a configuration and a tolerance is set, the
+classifier never answers MIN_SUCCESSFUL_REACHED for an unfinished batch it did not stop for a minimum:
+the decision was "all finished" or "tolerance exceeded". -/
+theorem C09_min_zero_reason (tc : Option Nat) (tp : Option (Nat × Nat)) (s f n : Nat) (hle : s + f ≤ n)
+    (ht : tc.isSome = true ∨ tp.isSome = true)
+    (hd : shouldComplete ⟨some 0, tc, tp⟩ s f n = true) :
+    reason (some ⟨some 0, tc, tp⟩) f s (s + f) n ≠ .minSuccessfulReached := by
+  rcases tc with _ | c <;> rcases tp with _ | p <;>
+    simp [shouldComplete, isComplete, minEff, shouldContinue, reason, Cfg.hasCriteria] at ht hd ⊢ <;> grind
+
+example : shouldComplete ⟨some 0, some 1, none⟩ 1 2 5 = true ∧
+    reason (some ⟨some 0, some 1, none⟩) 2 1 3 5 = .failureToleranceExceeded := by decide
+
 end C09
